@@ -76,6 +76,11 @@ type caseSpec struct {
 	// mempool.NewSTD(); applies to the sender and to the receiver
 	Alloc string `json:"alloc,omitempty"`
 	Move  bool   `json:"move,omitempty"`
+	// part F: payload release of the receiver ("", "upgrader", "engine") and the executor behind
+	// its Conn.Execute ("" inline, "call": queued jobs run after the Parse call, "feed": after the
+	// whole feed)
+	Release string `json:"release,omitempty"`
+	Exec    string `json:"exec,omitempty"`
 	// negotiation outcome and the application's use of Conn.EnableWriteCompression (nil: the
 	// extension is enabled on both sides and negotiated iff Comp, the API is never called)
 	Nego *negoSpec `json:"nego,omitempty"`
@@ -120,7 +125,8 @@ func (c *caseSpec) sndCfg() wsgen.Cfg {
 
 func (c *caseSpec) rcvCfg() wsgen.Cfg {
 	cfg := wsgen.Cfg{Client: !c.C2S, Compress: c.Comp, Level: c.Level, F: c.F, RecordCtl: true,
-		OnDataFrame: c.RecvDF, CloseAfterHandler: c.CloseAH, Policy: c.Policy, Alloc: c.Alloc, Move: c.Move}
+		OnDataFrame: c.RecvDF, CloseAfterHandler: c.CloseAH, Policy: c.Policy, Alloc: c.Alloc, Move: c.Move,
+		Release: c.Release, Exec: c.Exec, KeepRaw: c.Release == ""}
 	if n := c.Nego; n != nil {
 		cfg.Compress, cfg.Negotiated = n.RcvLocal, neg(n.Negotiated)
 	}
@@ -164,6 +170,12 @@ func (c *caseSpec) name() string {
 	}
 	if c.Alloc != "" || c.Move {
 		s += " alloc=" + c.allocName()
+	}
+	if c.Release != "" || c.Exec != "" {
+		s += fmt.Sprintf(" release=%q executor=%q", c.Release, c.Exec)
+	}
+	if c.RecvDF {
+		s += " +OnDataFrame"
 	}
 	return s
 }
@@ -391,6 +403,15 @@ func feedOnce(c *caseSpec, b *built, seg wsgen.Seg) (string, *wsgen.FeedResult) 
 		}
 		return fmt.Sprintf("decoder: mismatch kind=%s|%s", d.kind, d.text), r
 	}
+	if c.Release == "" {
+		// payload release is off: the application may keep what OnMessage handed it; it must still
+		// hold the same bytes after the feed (with release on it may not, and nothing is looked at)
+		for i, e := range rcv.Events {
+			if e.Kind == 'M' && e.Raw != nil && !bytes.Equal(e.Raw, e.Payload) {
+				return fmt.Sprintf("decoder: payload-changed-after-callback|the payload OnMessage was handed for event %d (%d bytes) holds other bytes after the feed although payload release is off", i, len(e.Payload)), r
+			}
+		}
+	}
 	if c.RecvDF {
 		// data frames must concatenate to the (possibly compressed) message payloads: checked loosely,
 		// the property is about OnMessage; only uncompressed concatenation is compared.
@@ -473,6 +494,16 @@ func segPolicy(tier string, c *caseSpec, b *built, seqPart bool) (wsgen.SegOpt, 
 	thorough := tier == "thorough"
 	fullComp := !c.Comp || c.Level == -2 || c.Level == 1 || c.Level == 9
 	o := wsgen.SegOpt{BytesMax: 4096, StructFrames: 2, DoubleFrames: 1}
+	if c.Release != "" || c.Exec != "" || c.Alloc == wsgen.AllocLIFO {
+		// part F: what matters is how many frames / messages one read carries: everything in one
+		// piece, the structural cuts (all frames; thorough: every single cut), byte-at-a-time, and
+		// chunks that carry a few frames each
+		o.StructFrames, o.Chunks = 0, []int{31, 140}
+		if thorough {
+			o.AllSingleMax = 2048
+		}
+		return o, false
+	}
 	if thorough || fullComp || seqPart {
 		o.AllSingleMax = 2048
 	}
@@ -665,7 +696,7 @@ var allocVariants = []allocVariant{
 // on the content class beyond "compressible or not". Wires of more than 4096 frames are left to
 // the thorough tier (the receiver is quadratic in the number of frames per call).
 func allocWanted(tier string, c *caseSpec, b *built, seqPart bool) bool {
-	if os.Getenv("VERIF_C12_NOALLOC") != "" || c.Alloc != "" || c.Move {
+	if os.Getenv("VERIF_C12_NOALLOC") != "" || c.Alloc != "" || c.Move || c.Release != "" || c.Exec != "" {
 		return false
 	}
 	if tier == "thorough" || seqPart {
@@ -840,6 +871,57 @@ func run(tier string, sh *vkit.Shard, p *vkit.Part) {
 					for _, ms := range seqs {
 						item(&caseSpec{C2S: c2s, F: 125, Comp: e.neg, Level: 1, Msgs: ms,
 							Nego: &negoSpec{SndLocal: e.snd, RcvLocal: e.rcv, Negotiated: e.neg, API: api}}, true)
+					}
+				}
+			}
+		}
+	}
+
+	// ---- part F: payload release x executor x recycling. The receiver's callbacks run inline (as
+	// everywhere else) or later - after the Parse call that queued them, or after the whole feed -
+	// the way a poller's executor does; payload release is off, on through Upgrader.ReleasePayload
+	// or on through Engine.ReleaseWebsocketPayload; the allocator poisons and never recycles (track)
+	// or hands the buffer freed last to the very next fitting Malloc (wsgen.Recycler). Several
+	// frames / messages per read are what makes the parser allocate again before a queued callback
+	// has run.
+	if os.Getenv("VERIF_C12_NOPARTF") == "" {
+		sub := []msgSpec{
+			{wsgen.OpText, 0, "ramp"}, {wsgen.OpBinary, 1, "ramp"}, {wsgen.OpText, 125, "utf8"},
+			{wsgen.OpBinary, 126, "lowcomp"}, {wsgen.OpText, 126, "ramp"}, {wsgen.OpBinary, 251, "zero"},
+		}
+		var seqs [][]msgSpec
+		for i, a := range sub {
+			for j, b := range sub {
+				seqs = append(seqs, []msgSpec{a, b})
+				if thorough || j == (i+1)%len(sub) {
+					for k, c := range sub {
+						if thorough || k == (i+2)%len(sub) || k == i {
+							seqs = append(seqs, []msgSpec{a, b, c})
+						}
+					}
+				}
+			}
+		}
+		for _, rel := range []string{"", "upgrader", "engine"} {
+			for _, ex := range []string{"", "call", "feed"} {
+				for _, al := range []string{"", wsgen.AllocLIFO} {
+					if rel == "" && ex == "" && al == "" {
+						continue // parts B and E
+					}
+					for _, c2s := range []bool{true, false} {
+						for _, cs := range []compSetting{{false, 0}, {true, 1}} {
+							for _, ctl := range []string{"", "ping"} {
+								for _, df := range []bool{false, true} {
+									if df && (cs.on || ctl != "" || !thorough && ex == "call") {
+										continue
+									}
+									for _, ms := range seqs {
+										item(&caseSpec{C2S: c2s, F: 125, Comp: cs.on, Level: cs.level, Msgs: ms, Ctl: ctl,
+											Release: rel, Exec: ex, Alloc: al, RecvDF: df}, true)
+									}
+								}
+							}
+						}
 					}
 				}
 			}
